@@ -40,16 +40,16 @@ def hb(b):
 
 # ----------------------------------------------------------------------------- generators
 
-SUBJECTS = ["fix the parser", "Add feature X", "émoji \U0001f63c subject", "subject: with colon", "a: b: c",
+SUBJECTS = ["ends with a no-break space\u00a0", "\u3000starts with an ideographic space", "fix the parser", "Add feature X", "émoji \U0001f63c subject", "subject: with colon", "a: b: c",
             "Revert \"something\"", "x", "fix #123 (again)", "WIP", "[PATCH 1/2] thing", "ßtraße läuft"]
-GOOD_SUBJECTS = [x for x in SUBJECTS if x != "subject: with colon"]
+GOOD_SUBJECTS = [x for x in SUBJECTS if x != "subject: with colon" and not x.startswith("\u3000")]
 HEADERISH = ["From: Some One <some@one.org>", "from: lower <l@c>", "Author: A <a@b>", "Date: 2020-01-01 10:00:00 +0100",
              "Subject: inner subject", "Message-Id: <123@x>", "patch: some-name", "Patch:", "Patch:   ",
              "From: broken", "From: A <a@b> trailing", "FROM: UP <u@p>", "date: yesterday",
              "commit 0123abcd", "commit", "commit xyz"]
 SEPISH = ["---", "--- ", "---\t", "--- a/file", "---  two", "----", "---x", "diff -ur a b", "diff --git a/x b/x",
           "Index: file.c", "Index:", " ---", "-- "]
-BODY = ["body line", "", "  indented line", "\tTabbed", "Signed-off-by: X Y <x@y.z>", "Reviewed-by: R <r@r>",
+BODY = ["\u3000ideographic indent", "trailing nbsp\u00a0", "\u2003em space both ends\u2003", "body line", "", "  indented line", "\tTabbed", "Signed-off-by: X Y <x@y.z>", "Reviewed-by: R <r@r>",
         "trailing spaces   ", "* bullet", "a:b", "http://example.com/x", "ünïcödé body", "line with \r in it",
         "    four spaces", "key: value"]
 INVALID = [b"\xff\xfe", b"caf\xe9", b"\xc3", b"ok \xed\xa0\x80 surrogate"]
@@ -151,7 +151,7 @@ def function_level(ctx, stg, edriver, n):
 AUTHORS = [("A U Thor", "author@example.com"), ("Ünï Cödé", "uni@exämple.org"), ("O'Brien, Pat", "pat+tag@example.com"),
            ("名前", "n@example.jp"), ("x", "x@y")]
 
-GOOD_BODIES = ["", "One paragraph body.\n", "First paragraph\nsecond line.\n\nSecond paragraph with ünïcödé.\n\n"
+GOOD_BODIES = ["\u3000全角スペースで始まる段落。\n二行目。\n", "", "One paragraph body.\n", "First paragraph\nsecond line.\n\nSecond paragraph with ünïcödé.\n\n"
                "Signed-off-by: S O <s@o>\nReviewed-by: R V <r@v>\n", "* bullet one\n* bullet two\n\n  indented later is fine\n",
                "key: value pairs later: fine\n\nFrom: not first line <n@f>\n", "a\n\n\n\nb\n"]
 BAD_BODIES = [("F13", "before the dashes\n---\nafter the dashes\n"), ("F13", "text\n--- a/old\n+++ b/new\n"),
@@ -441,6 +441,51 @@ def mbox_check(stg, rng):
     return n, failures
 
 
+DATES = ["1700000000 +0545", "86400 +1400", "1234567890 -0930", "1112911993 +0000", "2147483648 -1200",
+         "951782400 +0100", "1709164800 +0000", "4102444800 +0900"]
+
+DATE_TEMPLATE = ("%(shortdescr)s\n\nFrom: %(authname)s <%(authemail)s>\nDate: %(authdate)s\n\n%(longdescr)s\n---\n"
+                 "%(diffstat)s\n")
+
+
+def date_template_roundtrip(stg, rng):
+    """with a template that carries the author date, the date (and its time zone) comes back too"""
+    failures = []
+    n = 0
+    with repo.Scratch("c18d") as r:
+        r.init_repo()
+        base = r.rev("HEAD")
+        r.stg(stg, ["init"])
+        want = {}
+        for i, d in enumerate(DATES):
+            an, ae = AUTHORS[i % len(AUTHORS)]
+            r.write("d%d.txt" % i, "%d\n" % i)
+            r.git(["add", "-A"])
+            p = r.stg(stg, ["new", "--author", "%s <%s>" % (an, ae), "--authdate", d, "-m", "dated %d\n\nbody %d" % (i, i),
+                            "d%d" % i])
+            assert p.returncode == 0, p.stderr
+            r.stg(stg, ["refresh"])
+            want["d%d" % i] = r.git(["log", "-1", "--format=%an%x00%ae%x00%ad", "--date=raw", "refs/patches/main/d%d" % i]).stdout
+        tmpl = os.path.join(r.home, "date.tmpl")
+        open(tmpl, "w").write(DATE_TEMPLATE)
+        out = os.path.join(r.home, "outd")
+        p = r.stg(stg, ["export", "-d", out, "-t", tmpl])
+        if p.returncode != 0:
+            return 1, [{"obligation": "direct-oracle:C18:date", "why": "export failed", "stderr": p.stderr[-300:]}]
+        r.git(["checkout", "-q", "-b", "impd", base])
+        r.stg(stg, ["init"])
+        p = r.stg(stg, ["import", "--series", os.path.join(out, "series")])
+        if p.returncode != 0:
+            return 1, [{"obligation": "direct-oracle:C18:date", "why": "import failed", "stderr": p.stderr[-300:]}]
+        for nm, w in want.items():
+            got = r.git(["log", "-1", "--format=%an%x00%ae%x00%ad", "--date=raw", "refs/patches/impd/" + nm], check=False).stdout
+            n += 1
+            if got != w:
+                failures.append({"obligation": "direct-oracle:C18:date", "patch": nm,
+                                 "problems": ["author / date differ: %r -> %r" % (w, got)]})
+    return n, failures
+
+
 def run(ctx):
     stg = common.build_stg()
     broken = gate.coq_gate(ctx, need_extract=False)
@@ -481,8 +526,9 @@ def run(ctx):
     ed.close()
     n1, f1 = reject_check(stg, ctx.rng)
     n2, f2 = mbox_check(stg, ctx.rng)
-    e2e += n1 + n2
-    failures += f1 + f2
+    n3, f3 = date_template_roundtrip(stg, ctx.rng)
+    e2e += n1 + n2 + n3
+    failures += f1 + f2 + f3
     ctx.obligations += 1
     if not failures:
         ctx.discharged += 1
